@@ -11,6 +11,13 @@
 //	      ASCII characters and y, z over {a - / ] ^ ! \}, against the names "", every single printable character and
 //	      every two-character name over that small set; only pattern index k with k mod NSHARDS == SHARD;
 //	      IN gets "<hex pattern> <hex name>" per line, OUT one result char per pair (no separators)
+//	c17 bigfilter REPS IN OUT
+//	      Set.Filter on LARGE sets (sizes around the powers of two and just off multiples of small CPU counts) with the
+//	      patterns * , *x , a literal, a class (and one malformed pattern), under GOMAXPROCS 1 2 3 4 7 and the default,
+//	      REPS times each (a result that depends on map order / scheduling shows on some runs only).
+//	      IN gets one line per (set, pattern): "<hex pattern> <hex name> ..." (the set in index order);
+//	      OUT gets one line per run: "<case> <gomaxprocs> <rep> <len(result)> <oracle count> <M|N per name>"
+//	      where the oracle count is known from how the names are built, not from any matcher
 //	c17 rand N IN OUT
 //	      N generated pairs (VERIF_SEED): IN gets "<hex pattern> <hex name>" per line,
 //	      OUT gets "<match char><filter char> <klass> <patternValidUTF8 0|1>" per line
@@ -23,6 +30,7 @@ import (
 	"encoding/json"
 	"fmt"
 	"os"
+	"runtime"
 	"strconv"
 	"strings"
 	"unicode/utf8"
@@ -328,6 +336,61 @@ var corpus = [][3]string{
 	{"[�]", "\xff", "utf8-illformed-name"},
 }
 
+// ---------------------------------------------------------------- large sets
+// bigName is the i-th path of the large set: src/d<i%7>/f<i> plus ".x" (i%3==0), ".go" (i%3==1) or nothing.
+func bigName(i int) string {
+	ext := ""
+	switch i % 3 {
+	case 0:
+		ext = ".x"
+	case 1:
+		ext = ".go"
+	}
+	return fmt.Sprintf("src/d%d/f%d%s", i%7, i, ext)
+}
+
+type bigCase struct {
+	size    int
+	pattern string
+	want    int // number of elements that must be kept, by construction of the names
+}
+
+var bigSizes = []int{1023, 1024, 1025, 1027, 2049, 4099, 10007}
+
+func bigCases() []bigCase {
+	var out []bigCase
+	for _, n := range bigSizes {
+		nx, ncl := 0, 0
+		for i := 0; i < n; i++ {
+			if i%3 == 0 {
+				nx++
+			}
+			if i%7 <= 3 {
+				ncl++
+			}
+		}
+		out = append(out,
+			bigCase{n, "*", n},
+			bigCase{n, "*x", nx},
+			bigCase{n, bigName(n / 2), 1},
+			bigCase{n, "src/d[0-3]/*", ncl})
+		if n == 1025 {
+			out = append(out, bigCase{n, "src/[", 0}, bigCase{n, "*.[^g]*", nx})
+		}
+	}
+	return out
+}
+
+func bigSet(n int) ([]string, intoto.Set) {
+	names := make([]string, n)
+	for i := range names {
+		names[i] = bigName(i)
+	}
+	return names, intoto.NewSet(names...)
+}
+
+var bigProcs = []int{1, 2, 3, 4, 7, 0} // 0 = the default of the machine
+
 func main() {
 	if len(os.Args) < 2 {
 		fmt.Fprintln(os.Stderr, "usage: c17 enum|filter|rand|replay ...")
@@ -434,6 +497,54 @@ func main() {
 		wout.Flush()
 		fin.Close()
 		fout.Close()
+	case "bigfilter":
+		silenceStdout()
+		reps := atoi(a[0])
+		fin, err := os.Create(a[1])
+		if err != nil {
+			panic(err)
+		}
+		fout, err := os.Create(a[2])
+		if err != nil {
+			panic(err)
+		}
+		win, wout := bufio.NewWriterSize(fin, 1<<20), bufio.NewWriterSize(fout, 1<<20)
+		def := runtime.GOMAXPROCS(0)
+		for ci, c := range bigCases() {
+			names, _ := bigSet(c.size)
+			win.WriteString(tohex(c.pattern))
+			for _, n := range names {
+				win.WriteByte(' ')
+				win.WriteString(tohex(n))
+			}
+			win.WriteByte('\n')
+			for _, procs := range bigProcs {
+				pr := procs
+				if pr == 0 {
+					pr = def
+				}
+				runtime.GOMAXPROCS(pr)
+				for rep := 0; rep < reps; rep++ {
+					// a fresh map every time: iteration order differs from run to run
+					_, set := bigSet(c.size)
+					res := set.Filter(c.pattern)
+					fmt.Fprintf(wout, "%d %d %d %d %d ", ci, pr, rep, len(res), c.want)
+					for _, n := range names {
+						if res.Has(n) {
+							wout.WriteByte('M')
+						} else {
+							wout.WriteByte('N')
+						}
+					}
+					wout.WriteByte('\n')
+				}
+			}
+			runtime.GOMAXPROCS(def)
+		}
+		win.Flush()
+		wout.Flush()
+		fin.Close()
+		fout.Close()
 	case "rand":
 		silenceStdout()
 		n := atoi(a[0])
@@ -478,9 +589,42 @@ func main() {
 			} `json:"input"`
 			PatternHex string `json:"pattern_hex"`
 			NameHex    string `json:"name_hex"`
+			SetSize    int    `json:"set_size"`
+			Gomaxprocs int    `json:"gomaxprocs"`
 		}
 		if err := json.Unmarshal(b, &c); err != nil {
 			panic(err)
+		}
+		if c.SetSize > 0 {
+			p := unhex(c.PatternHex)
+			names, _ := bigSet(c.SetSize)
+			want := 0
+			for _, n := range names {
+				if matchChar(p, n) == 'M' {
+					want++
+				}
+			}
+			if c.Gomaxprocs > 0 {
+				runtime.GOMAXPROCS(c.Gomaxprocs)
+			}
+			fmt.Fprintf(os.Stderr, "pattern=%q on the %d paths src/d<i%%7>/f<i>[.x|.go], GOMAXPROCS=%d: %d elements match one by one\n",
+				p, c.SetSize, runtime.GOMAXPROCS(0), want)
+			old := os.Stdout
+			silenceStdout()
+			for rep := 0; rep < 8; rep++ {
+				_, set := bigSet(c.SetSize)
+				res := set.Filter(p)
+				lost := ""
+				for _, n := range names {
+					if matchChar(p, n) == 'M' && !res.Has(n) {
+						lost = n
+						break
+					}
+				}
+				fmt.Fprintf(os.Stderr, "implementation: run %d: len(set.Filter(pattern)) = %d  first missing element: %q\n", rep, len(res), lost)
+			}
+			os.Stdout = old
+			return
 		}
 		ph, nh := c.Input.PatternHex, c.Input.NameHex
 		if ph == "" && nh == "" {
